@@ -10,7 +10,8 @@ import "sync"
 // Stack (native or alias), element 1 a Condition whose expression is a Stack,
 // element 2 text, element 3 an int.  Option bits are symbolic.  variant bit 0:
 // user closures installed; bit 1: mutex enabled; bit 2: capacity set; bit 3: a
-// nested Condition has a failing unmarshaler.
+// nested Condition has a failing unmarshaler; bit 4: no comparison function
+// and a validity policy that rejects.
 func vhRich(variant int, optMask cfgFlag) (Stack, *nodeConfig) {
 	capMode := 0
 	if variant&4 != 0 {
@@ -49,6 +50,12 @@ func vhRich(variant int, optMask cfgFlag) (Stack, *nodeConfig) {
 	if variant&8 != 0 {
 		// only a NESTED Condition carries an unmarshaler, and it fails
 		c.condition.cfg.umf = func(...any) ([]any, error) { return nil, errorf("nested unmarshaler refuses") }
+	}
+	if variant&16 != 0 {
+		// no comparison function installed; a validity policy that currently
+		// rejects the instance (neither may matter to any guard)
+		cfg.lss = nil
+		cfg.vpf = func(...any) error { return errorf("content not acceptable") }
 	}
 	if variant&2 != 0 {
 		cfg.mtx = &sync.Mutex{}
